@@ -233,6 +233,8 @@ def method_set(tier):
            ([A.Prim("u64"), A.Prim("u64"), A.Prim("u64"), A.Prim("u64"), A.Prim("u64"), A.Prim("u64"), A.Prim("u8")], A.Prim("i64")), ([A.Prim("f32")], A.Prim("f32"))]
     for ps, r in cbs:
         add("CB", ps, r)
+    # a callback that owns state and is invoked three times in one call: every invocation must run on the SAME callable
+    add("CB", [A.Prim("u8")], A.Prim("u16"), multi=True)
     # ---- namespaced and renamed types / methods (C++ renders namespaces and renames; C must be unaffected)
     nsst = A.Struct("NsSt", [("a", A.Prim("u8")), ("b", A.Prim("i64"))], attrs='    #[diplomat::attr(cpp, namespace = "nsx::inner")]\n', cpp_name="nsx::inner::NsSt")
     rnen = A.Enum("RnEn", [("A", 1), ("B", 3)], attrs='    #[diplomat::attr(cpp, rename = "RenamedEn")]\n', cpp_name="RenamedEn")
@@ -365,6 +367,8 @@ def cases_for(m):
                 for r in rets:
                     out.append((ci, p, r))
         return out
+    if m["kind"] == "CB" and m.get("multi"):
+        return [((1,), 0)]
     if m["kind"] == "CB":
         # callback args come from Rust (selected value index), return value comes from C
         n = max([len(v) for v in pvals] + [1])
@@ -425,6 +429,9 @@ def rust_method(m):
             tail = "\n            match sel() / 16 {\n%s\n                _ => unreachable!(),\n            }" % arms
         return ("pub fn %s(%s)%s {\n            use core::fmt::Write;\n            log_call(%d, |s| { %s });\n            match sel() %% 16 {\n%s\n                _ => unreachable!(),\n            }%s\n        }"
                 % (m["name"], ", ".join(params), _ret_sig(m["ret"]), i, dumps, chunks, tail))
+    if k == "CB" and m.get("multi"):
+        return ("pub fn %s(f: impl Fn(u8) -> u16) {\n            let (a, b, c) = (f(1), f(2), f(3));\n"
+                "            log_call(%d, |s| { s.push_str(&format!(\"cbm({},{},{})\", a, b, c)); });\n        }" % (m["name"], i))
     if k == "CB":
         cs = cases_for(m)
         ptys = ", ".join(t.rust("param") for t in m["params"])
@@ -623,7 +630,7 @@ def c_case(m, j, case):
             body.append("dump_slice(fb + 4, fw.len, 1); }")
     elif k == "CB":
         body.append("verif_sel(%d);" % j)
-        body.append("CB_CASE = %d; CB_CALLS = 0; CB_DESTROYED = 0;" % j)
+        body.append("CB_CASE = %d; CB_CALLS = 0; CB_DESTROYED = 0; CBM_ACC = 0;" % j)
         body.append("DiplomatCallback_%s_f cb = { .data = &CB_COOKIE, .run_callback = cbfn_%d, .destructor = cb_destroy };" % (fn, i))
         body.append("%s(cb);" % fn)
         body.append('printf("CB %d %d | calls=%%d destroyed=%%d", CB_CALLS, CB_DESTROYED);' % (i, j))
@@ -634,6 +641,8 @@ def c_case(m, j, case):
 def c_callback_fn(m):
     """the C function Rust calls back: prints what it received into a side buffer, returns the case's value"""
     i = m["i"]
+    if m.get("multi"):
+        return "static uint16_t cbfn_%d(const void* data, uint8_t x0) { (void)data; CB_CALLS++; CBM_ACC += x0; return (uint16_t)CBM_ACC; }" % i
     cs = cases_for(m)
     params = ", ".join(["const void* data"] + ["%s x%d" % (t.c_type(), j) for j, t in enumerate(m["params"])])
     rty = "void" if m["ret"] is None else m["ret"].c_type()
@@ -669,6 +678,8 @@ def expected_line(m, j, case, fixed=True):
             got, failed = _fixed_model(W_CHUNKS[ci], size - 1)
             ftext += " %s f=%d z=0 g=1 [%d:%s]" % (tag, failed, len(got), got.hex())
         return "W %d %d | %s%s%s | %s" % (i, j, pre, w, ftext, call * (1 + len(sizes)))
+    if k == "CB" and m.get("multi"):
+        return "CB %d %d | calls=3 destroyed=1 | CALL %d:cbm(1,3,6)~" % (i, j, i)
     if k == "CB":
         args, rv = case
         r = "cbret()" if m["ret"] is None else "cbret(%s)" % m["ret"].dump(rv)
@@ -696,7 +707,7 @@ def render_c_driver(types, methods, headers):
     L = [C_PRELUDE]
     for h in headers:
         L.append('#include "%s"' % h)
-    L.append("static int CB_COOKIE, CB_CASE, CB_CALLS, CB_DESTROYED;")
+    L.append("static int CB_COOKIE, CB_CASE, CB_CALLS, CB_DESTROYED, CBM_ACC;")
     L.append("static void cb_destroy(const void* d) { if (d == &CB_COOKIE) CB_DESTROYED++; }")
     for m in methods:
         if m["kind"] == "CB":
@@ -840,8 +851,12 @@ def cpp_case(types, m, j, case):
         rty = "void" if m["ret"] is None else m["ret"].cpp_type()
         dumps = ' printf(";"); '.join(t.cpp_dump("x%d" % q) for q, t in enumerate(m["params"]))
         ret = "" if m["ret"] is None else "return %s;" % m["ret"].cpp_lit(rv, ctx)
-        body.append('std::function<%s(%s)> f = [&calls, tok](%s) -> %s { calls++; printf("CBARGS %d cookie=1:"); %s printf("\\n"); %s };'
-                    % (rty, ", ".join(t.cpp_type() for t in m["params"]), params, rty, i, dumps, ret))
+        if m.get("multi"):
+            # the state lives inside the callable (by-value capture of a mutable lambda)
+            body.append("std::function<uint16_t(uint8_t)> f = [&calls, tok, acc = 0](uint8_t x0) mutable -> uint16_t { calls++; acc += x0; return (uint16_t)acc; };")
+        else:
+            body.append('std::function<%s(%s)> f = [&calls, tok](%s) -> %s { calls++; printf("CBARGS %d cookie=1:"); %s printf("\\n"); %s };'
+                        % (rty, ", ".join(t.cpp_type() for t in m["params"]), params, rty, i, dumps, ret))
         body.append("%s(std::move(f)); f = nullptr;" % fn)
         body.append('printf("CB %d %d | calls=%%d destroyed=%%d", calls, (int)(tok.use_count() == 1));' % (i, j))
     stmts = ctx.pre + body + ctx.post + ["report_log();"]
